@@ -239,8 +239,10 @@ def matches_known(entry, case, name, detail):
 
 
 def generate(rng, n, tier):
+    from props import corners
+    _corner = corners.parse_cases()
     g = Gen(rng, pct_strings=False, max_depth=2)
-    cases = []
+    cases = list(_corner)
     fixed = [
         ("cond", {"value.mro": None}, True, "an unknown callable"), ("cond", {1: 2}, False, "mutation"),
         ("path", {}, True, "an empty mapping"), ("path", {"path.simplify": ["a"]}, True, "an unknown path suffix"),
